@@ -120,7 +120,8 @@ def rdoc(rng, classes, size, errors=False, colon=True, with_params=True):
             doc.append([3, s2t(s)])
         elif r < 0.76:
             if stack or (errors and rng.random() < 0.5):
-                doc.append([2])
+                # [/]  or a blank closing name, which the implementation treats the same way
+                doc.append([2] if rng.random() < 0.8 else [1, s2t(rng.choice([" ", "  ", "\xa0", "\t "]))])
                 if stack:
                     stack.pop()
         elif r < 0.97:
@@ -185,7 +186,9 @@ def generate(rng, tier):
         for lo in range(0, total, step):
             cases.append(("ex_range", [0, length, lo, min(total, lo + step)]))
     if not quick:
-        for length in (6, 7):
+        # VERIF_C04_DIGEST_MAX=6 shortens the digest sweep (used for the mutation self-test only)
+        import os
+        for length in range(6, int(os.environ.get("VERIF_C04_DIGEST_MAX", "7")) + 1):
             total = 12 ** length
             step = 40000
             for lo in range(0, total, step):
@@ -391,7 +394,7 @@ def py_doc_ok(doc):
                     return False
             elif k == 1:
                 n = t2s(it[1])
-                if any(c in n for c in "]\n=") or not n.strip():
+                if any(c in n for c in "]\n="):
                     return False
             elif k == 2:
                 if len(it) != 1:
